@@ -117,18 +117,18 @@ CHECKS["C07"] = dict(
 )
 CHECKS["C13"] = dict(
     category="other",
-    text="CrossHair executes the real metaclass __getitem__ machinery of BitVector/Unsigned/Signed/Array and Signal/Variable/Temporary/Port and the view accessors symbolically: 63 conditions (all must be 'Confirmed over all paths') over symbolic widths (1..8), kinds, qualifier kinds, port directions, both orders of first use (type caches reset to the import-time snapshot on every path), and for views the contents, written slice, written bits, read view and qualifier. Post-conditions: identical class <=> equal parameters; issubclass matrix of the statement incl. 'unrelated => False'; Port[T,d] is a subclass of Signal[T]; writes through any view are read back through every other view, same _root and qualifier.",
+    text="(1) CrossHair executes the real metaclass __getitem__ machinery of BitVector/Unsigned/Signed/Array and Signal/Variable/Temporary/Port and the view accessors symbolically (87 conditions, all must be 'Confirmed over all paths') over symbolic widths (1..8), kinds, qualifier kinds, port directions, both orders of first use (type caches reset to the import-time snapshot on every path), and for views the contents, written slice, written bits, read view and qualifier. Post-conditions: identical class <=> equal parameters; issubclass matrix of the statement incl. 'unrelated => False'; Port[T,d] is a Signal[T], a Port/Signal of every documented base of T and of nothing unrelated; writes through any view (also views of plain values: x.bitvector / x.unsigned / x.signed and slices of them) are read back through every other view, same _root and qualifier. (2) 363 view cells through the whole compiler (chains of up to three slices with .bitvector/.unsigned/.signed views in between, element access and iteration; reads and writes; 10-bit roots of each kind): z3 proves that the emitted text reads / writes exactly the bits the view denotes, for all contents.",
     design_ref="DESIGN.md 3/C13, 2.7",
     note="Bounded (widths, two first-use orders per pair, object width 2/3 for views). Trusted: CrossHair/z3; harness vfw/props/c13_epy.py.",
-    technique="CrossHair symbolic execution of the type-construction and view code with PEP316 post-conditions",
+    technique='CrossHair symbolic execution of the type-construction and view code with PEP316 post-conditions; z3 equivalence of emitted view accesses with the bit-range specification (cell engine)',
     engine="E-PY",
 )
 CHECKS["C10"] = dict(
     category="other",
-    text="PARTIAL claim: argument binding and starred-target splitting only. CrossHair executes the real FunctionDefinition.bind_args for a bank of 18 signatures (every mix of positional-only, positional-or-keyword, *args, keyword-only, **kwargs, defaults, up to 4 parameters) with a symbolic call shape (0..5 positionals, any subset of keyword names a,b,c,d,x) and compares with CPython's inspect.Signature.bind + apply_defaults: same binding or both reject; likewise PrepareAst._split_target vs real starred assignment. 19 conditions, all must be 'Confirmed over all paths'.",
+    text="PARTIAL claim. (1) CrossHair executes the real FunctionDefinition.bind_args for a bank of 18 signatures (every mix of positional-only, positional-or-keyword, *args, keyword-only, **kwargs, defaults, up to 4 parameters) with a symbolic call shape (0..5 positionals, any subset of keyword names a,b,c,d,x) and compares with CPython's inspect.Signature.bind + apply_defaults: same binding or both reject; likewise PrepareAst._split_target vs real starred assignment. (2) A bank of plain-Python programs over three selectors in 0..3 (operator dispatch with reflected fallbacks and declining operands, chained comparisons, and/or/not as truth values, parameter kinds and binding errors, closures vs globals incl. pre-built closures, late binding, classes / super / properties / __call__, unpacking, subscripts, slices, comprehensions, constant control flow, builtins): the value cohdl's tracer computes at compile time (read off the emitted literal) equals CPython's, or the program is rejected; programs CPython rejects must be rejected. One CrossHair condition per signature / program, all must be 'Confirmed over all paths'.",
     design_ref="DESIGN.md 3/C10, 4",
-    note="Not claimed: equivalence of the statement/expression tracer (apply_impl) with CPython (closures, classes, comprehensions, operator dispatch): symbolic values cannot flow through the tracer and the remaining quantifier is over program text -- outside the reach of solver-based checking here.",
-    technique="CrossHair symbolic execution of bind_args vs inspect.Signature.bind (differential, call shapes symbolic)",
+    note="For part (2) the tracer cannot run on symbolic values (it dispatches through unbound builtin descriptors): CrossHair chooses the selector values path by path and the real tracer then runs concretely under NoTracing, so 'Confirmed over all paths' means all 64 selector triples of a program agree. Not claimed: programs outside the bank (the quantifier over program text is outside the reach of solver-based checking). One known finding (late binding of closures created in comprehensions).",
+    technique='CrossHair symbolic execution of bind_args vs inspect.Signature.bind (call shapes symbolic); CrossHair path enumeration over selector values with the real tracer run concretely per path, differential against CPython',
     engine="E-PY",
 )
 CHECKS["C12"] = dict(
